@@ -78,6 +78,10 @@ def morton_cells(tier, parts):
                 cells.append(Cell("morton.sizing.N%d.%s" % (n, sname), un, "h_morton_sizing", defines=dict(base, VERIF_USE_BMI2=1),
                                   replace=["morton_calculate_index", "morton_alloc_size_ctor"], unwind=5,
                                   closes_loops="harness loops over N (complete)", replay="morton"))
+            if "monotone" in parts:
+                cells.append(Cell("morton.monotone.N%d.%s" % (n, sname), un, "h_morton_monotone", defines=dict(base, VERIF_USE_BMI2=1),
+                                  replace=["morton_calculate_index"], unwind=5, backends=(("sat", 300), ("cadical", 300)),
+                                  closes_loops="harness loops over N (complete)", replay="morton"))
             if "injective" in parts:
                 cells.append(Cell("morton.injective.N%d.%s" % (n, sname), un, "h_morton_injective", defines=dict(base, VERIF_USE_BMI2=1),
                                   replace=["morton_calculate_index"], unwind=5,
@@ -280,7 +284,7 @@ PROPS["C14"] = {
 
 # ------------------------------------------------------------------ C01
 def cells_C01(tier, consts):
-    cells = morton_cells(tier, ["index", "at", "injective", "sizing", "alloc"])
+    cells = morton_cells(tier, ["index", "at", "injective", "sizing", "alloc", "monotone"])
     cells += strided_cells(tier, ["formula", "bound8", "bounded64", "alloc"])
     cells += hilbert_cells(tier, ["rot", "box", "alloc"], kmax_quick=8, kmax_thorough=11)
     cells += array_at_cells(tier)
@@ -871,7 +875,7 @@ PROPS["C05"] = {
 # ------------------------------------------------------------------ C09
 def cells_C09(tier, consts):
     cells = []
-    combos = [(1, "float"), (2, "float"), (2, "unsigned"), (3, "unsigned"), (3, "double"), (4, "unsigned")] if tier == "quick" else \
+    combos = [(1, "unsigned"), (2, "float"), (2, "unsigned"), (3, "unsigned"), (3, "double"), (4, "unsigned")] if tier == "quick" else \
              [(n, t) for n in (1, 2, 3, 4) for t in ("unsigned", "float", "double") if not (n == 4 and t != "unsigned")]
     if tier == "thorough":
         combos = combos + [(2, "uint8_t")]
@@ -883,11 +887,18 @@ def cells_C09(tier, consts):
             opt = name == "lemma_compose"
             cells.append(Cell("affine.%s.N%d.%s" % (name, n, t), "affine", h, defines=d, enforce=enforce, replace=list(replace), unwind=8,
                               backends=be, closes_loops=cl, object_bits=12, optional=opt,
-                              note="all values of T; lemmas in the ring of unsigned (mod 2^32)", replay=None))
+                              note="all values of T; lemmas in the ring of unsigned (mod 2^32)", replay="affine"))
         if t == "uint8_t":
             C("lemma_compose", "h_lemma_compose", None, ["affine_mul", "affine_apply"])
             C("mul", "h_affine_mul", "affine_mul", ["mat_mul_b"])
             C("apply", "h_affine_apply", "affine_apply", ["mat_mul_a"])
+            continue
+        if t in ("float", "double"):
+            # arithmetic-free functions only: a bit-exact float contract for the products would flag a harmless change of
+            # summation order, and an order-insensitive one (exact small-integer sub-domain) is not decided by any back end
+            C("identity", "h_mat_identity", "mat_identity")
+            C("translation", "h_affine_translation", "affine_translation", ["mat_identity"])
+            C("scaling", "h_affine_scaling", "affine_scaling", ["mat_identity"])
             continue
         C("mat_mul_a", "h_mat_mul_a", "mat_mul_a")
         C("mat_mul_b", "h_mat_mul_b", "mat_mul_b")
@@ -906,8 +917,8 @@ def cells_C09(tier, consts):
 
 
 PROPS["C09"] = {
-    "level_text": "matrix product, identity, affine*vector, affine*affine, translation, scaling and the affine layer's lookup proved against the textbook formulas (summation order fixed, so the contracts hold bit-exactly for every value of float, double and unsigned), N=1..4; the product of two transforms is proved to be the composition matrix (A*B)_ij = sum_k A_ik B_kj + [j=N] A_iN, i.e. apply the right factor and then the left; lemmas over the contracts in the ring of unsigned: translation(t)*v == v+t, scaling(s)*v == s.v, identity*v == v; the layer queries its backend exactly once at A x + t",
-    "level_note": "the mechanised lemma (A*B)*v == A*(B*v) is a cubic ring identity that no installed back end decides (cvc5, cadical; also at the 8-bit instantiation): it is a recorded, optional attempt in the thorough tier and is NOT counted; no rounding-error bound is claimed; the unsigned instantiation is the same template text with T=unsigned (arithmetic modulo 2^32: a commutative ring, no undefined overflow); matrix operator()/operator* rewritten by rule R17",
+    "level_text": "matrix product, identity, affine*vector, affine*affine, translation, scaling and the affine layer's lookup proved against the textbook formulas on the unsigned instantiation of the same template text (arithmetic modulo 2^32 is a commutative ring: the contracts are insensitive to summation order, and cvc5 decides them for all values), N=1..4; identity / translation / scaling also for float and double; the product of two transforms is proved to be the composition matrix (A*B)_ij = sum_k A_ik B_kj + [j=N] A_iN, i.e. apply the right factor and then the left; lemmas over the contracts in the ring of unsigned: translation(t)*v == v+t, scaling(s)*v == s.v, identity*v == v; the layer queries its backend exactly once at A x + t",
+    "level_note": "the mechanised lemma (A*B)*v == A*(B*v) is a cubic ring identity that no installed back end decides (cvc5, cadical; also at the 8-bit instantiation): it is a recorded, optional attempt in the thorough tier and is NOT counted; float/double products are NOT put under a bit-exact contract (it would flag harmless reorderings of the summation; the order-insensitive exact-sub-domain form is undecided by every back end) -- the float-specific half of C09 (within rounding) is not decided; no rounding-error bound is claimed; the unsigned instantiation is the same template text with T=unsigned (arithmetic modulo 2^32: a commutative ring, no undefined overflow); matrix operator()/operator* rewritten by rule R17",
     "design_ref": "DESIGN.md section 5 (C09)",
     "cells": cells_C09, "consts": False,
     "explanation": "affine algebra on the exact small-integer sub-domain",
